@@ -105,8 +105,59 @@ FpCodec(e) ==
             ELSE Clean(e) /\ IsFpVal(e, e.c, FpDecStr(e.in, e.radix, p).v)
       [] OTHER -> FALSE
 
+(* ---- F_p^2 elements, plain and packed (unitary) form.  v = a VARIANT of the reader:    *)
+(* the specification is StrictV; the other variants only key known findings:              *)
+(*   sg       sign function (SgParity = specified; SgMont = parity of the representation)  *)
+(*   anybyte  a sign byte other than 0/1 is read as 0                                      *)
+(*   nofail   "a0 has no a1" is not reported: the object is left as (a0, raw bit)          *)
+(*   qm1      the ordinate is derived from a1^2 = 1 - a0^2 although i^2 = q # -1           *)
+(*   zsign    a1 = 0 is returned although the sign byte asks for the other root            *)
+QnrOf(e) == IF e.qnr < 0 THEN BSub(FPrime(e), BFromNat(0 - e.qnr)) ELSE BFromNat(e.qnr)
+F2COf(e) == [p |-> FPrime(e), q |-> QnrOf(e)]
+StrictV  == [sg |-> SgParity, anybyte |-> FALSE, nofail |-> FALSE, qm1 |-> FALSE, zsign |-> FALSE]
+IsStrictButSg(v) == ~v.anybyte /\ ~v.nofail /\ ~v.qm1 /\ ~v.zsign
+
+Fp2ReadPacked(e, v) ==
+    LET fc   == F2COf(e)
+        p    == fc.p
+        a0   == BFromBE(SubSeq(e.in, 1, e.fb))
+        byte == e.in[e.fb + 1]
+        bit  == IF byte = 1 THEN 1 ELSE 0
+        w    == IF v.qm1 THEN FSub(<<1>>, FSqr(a0, p), p) ELSE Fp2PackedRhs(a0, fc)
+    IN  IF ~BLt(a0, p) \/ (byte \notin {0, 1} /\ ~v.anybyte) THEN Failed(e)
+        ELSE IF ~FIsSquare(w, p) THEN
+            (IF v.nofail THEN /\ Clean(e) /\ IsFpVal(e, e.c[1], a0) /\ Len(e.c[2]) = e.w * e.fd
+                              /\ BNorm(e.c[2]) = (IF bit = 1 THEN <<1>> ELSE <<>>)
+             ELSE Failed(e))
+        ELSE LET r  == FSqrt(w, p)
+                 a1 == IF SignBit(r, p, v.sg) = bit THEN r ELSE FNeg(r, p)
+             IN  IF SignBit(a1, p, v.sg) # bit /\ ~v.zsign THEN Failed(e)
+                 ELSE /\ Clean(e) /\ IsFpVal(e, e.c[1], a0) /\ IsFpVal(e, e.c[2], a1)
+                      /\ IsStrictButSg(v) => (e.rerr = 0 /\ e.re = e.in /\ e.g = 1)
+
+Fp2CodecV(e, v) ==
+    LET fc == F2COf(e) IN
+    CASE e.op = "fp2_read_bin" ->
+            IF Len(e.in) = e.fb + 1 /\ e.fb > 1 THEN Fp2ReadPacked(e, v)
+            ELSE LET d == FpxDecBin(e.in, fc.p, e.fb, 2) IN
+                 IF ~d.ok THEN Failed(e)
+                 ELSE /\ Clean(e) /\ Len(e.c) = 2
+                      /\ \A i \in 1..2 : IsFpVal(e, e.c[i], d.v[i])
+                      /\ e.rerr = 0 /\ e.re = e.in /\ e.g = 1
+      [] e.op = "fp2_write_bin" ->
+            LET a   == <<FAbs(e, e.a[1]), FAbs(e, e.a[2])>>
+                pk  == e.pack # 0 /\ e.fb > 1
+                z   == Fp2EncSize(a, pk, fc, e.fb)
+                enc == Fp2Enc(a, pk, fc, e.fb, v.sg)
+            IN  /\ FCanon(e, e.a[1]) /\ FCanon(e, e.a[2])
+                /\ e.size = z /\ e.g = 1
+                /\ IF e.len < z THEN BufErr(e)
+                   ELSE IF e.len = z THEN Clean(e) /\ e.out = enc
+                   ELSE BufErr(e) \/ (Clean(e) /\ Prefix(e.out, z) = enc)
+      [] OTHER -> FALSE
+
 (* ---- extension fields, uncompressed form: deg coefficients *)
-IsCompressedLen(e) == (e.deg = 2 /\ Len(e.in) = e.fb + 1) \/ (e.deg = 12 /\ Len(e.in) = 8 * e.fb)
+IsCompressedLen(e) == e.deg = 12 /\ Len(e.in) = 8 * e.fb
 FpxCodec(e) ==
     LET p == FPrime(e) IN
     CASE e.op \in {"fp2_read_bin", "fp12_read_bin"} ->
@@ -166,6 +217,48 @@ EpCodecSg(e, sg) ==
       [] OTHER -> FALSE
 EpCodec(e) == EpCodecSg(e, SgOf(e))
 
+(* ---- points over F_p^2 (G2): raw fp2 = <<raw0, raw1>>, qnr = the small integer i^2 *)
+A2(e, r2) == <<FAbs(e, r2[1]), FAbs(e, r2[2])>>
+Canon2(e, r2) == FCanon(e, r2[1]) /\ FCanon(e, r2[2])
+Curve2Of(e) == [p |-> FPrime(e), q |-> QnrOf(e), a |-> A2(e, e.a2), b |-> A2(e, e.b2)]
+PInf2 == [inf |-> TRUE, x |-> F2Zero, y |-> F2Zero]
+P2Abs(e, P) ==
+    LET c == Curve2Of(e)
+        z == A2(e, P.z)
+        x == A2(e, P.x)
+        y == A2(e, P.y)
+    IN  IF z = F2Zero THEN PInf2
+        ELSE IF P.c = 1 THEN [inf |-> FALSE, x |-> x, y |-> y]
+        ELSE LET zi  == F2Inv(z, c)
+                 zi2 == F2Sqr(zi, c)
+             IN  IF P.c = 2 THEN [inf |-> FALSE, x |-> F2Mul(x, zi, c), y |-> F2Mul(y, zi, c)]
+                 ELSE [inf |-> FALSE, x |-> F2Mul(x, zi2, c), y |-> F2Mul(y, F2Mul(zi2, zi, c), c)]
+P2Canon(e, P)  == Canon2(e, P.x) /\ Canon2(e, P.y) /\ Canon2(e, P.z)
+P2Normal(e, P) == P2Canon(e, P) /\ (A2(e, P.z) = F2Zero \/ (A2(e, P.z) = <<<<1>>, <<>>>> /\ P.c = 1))
+
+Ep2CodecSk(e, sk) ==
+    LET c == Curve2Of(e) IN
+    CASE e.op = "ep2_size_bin" ->
+            LET Q == P2Abs(e, e.P) IN
+            OnCurve2(Q, c) /\ Clean(e) /\ e.size = EncSize2(Q, e.pack # 0, e.fb)
+      [] e.op = "ep2_write_bin" ->
+            LET Q == P2Abs(e, e.P)
+                z == EncSize2(Q, e.pack # 0, e.fb)
+            IN  /\ OnCurve2(Q, c) /\ P2Canon(e, e.P)
+                /\ e.size = z /\ e.g = 1
+                /\ IF e.len < z THEN BufErr(e)
+                   ELSE Clean(e) /\ Prefix(e.out, z) = EncPoint2(Q, e.pack # 0, c, e.fb, sk)
+      [] e.op = "ep2_read_bin" ->
+            LET cl == Dec2Class(e.in, c, e.fb) IN
+            IF cl = "bad" THEN Failed(e)
+            ELSE LET Q == P2Abs(e, e.R) IN
+                 /\ Clean(e) /\ P2Normal(e, e.R) /\ IsDecPoint2(e.in, cl, Q, c, e.fb)
+                 /\ e.rerr = 0 /\ e.g = 1
+                 /\ IF sk = "ietf" THEN e.re = e.in
+                    ELSE e.re = EncPoint2(Q, cl = "cmp", c, e.fb, sk)
+      [] OTHER -> FALSE
+IsEp2Op(op) == op \in {"ep2_size_bin", "ep2_write_bin", "ep2_read_bin"}
+
 IsBnOp(op)  == op \in {"bn_size_bin", "bn_write_bin", "bn_read_bin", "bn_write_raw", "bn_read_raw",
                        "bn_size_str", "bn_write_str", "bn_read_str"}
 IsFpOp(op)  == op \in {"fp_read_bin", "fp_write_bin", "fp_size_str", "fp_write_str", "fp_read_str"}
@@ -177,8 +270,10 @@ CodecAccept(e) ==
     ELSE IF Has(e, "crash") THEN FALSE
     ELSE IF IsBnOp(e.op) THEN BnCodec(e)
     ELSE IF IsFpOp(e.op) THEN FpCodec(e)
+    ELSE IF e.op \in {"fp2_read_bin", "fp2_write_bin"} THEN Fp2CodecV(e, StrictV)
     ELSE IF IsFpxOp(e.op) THEN FpxCodec(e)
     ELSE IF IsEpOp(e.op) THEN EpCodec(e)
+    ELSE IF IsEp2Op(e.op) THEN Ep2CodecSk(e, "ietf")
     ELSE FALSE
 
 (***************************************************************************)
@@ -193,6 +288,18 @@ CodecAccept(e) ==
 (*  C07-ep-read-bin-two-torsion-sign: ep_read_bin accepts the compressed   *)
 (*    string whose bit asks for the non-existing second ordinate over an x *)
 (*    with x^3+ax+b = 0 and returns (x, 0), which re-encodes differently.  *)
+(*  C07-ep2-pck-sign-y1-zero: ep2_pck (ep2_write_bin, pack) takes the sign  *)
+(*    bit from y1 alone while ep2_upk follows the IETF rule (y0 when        *)
+(*    y1 = 0): for a point with y in F_p, y0 > (p-1)/2 the writer emits tag *)
+(*    02 and decode(encode(P)) = -P.  The event is explained exactly by the *)
+(*    sign function "y1only" in the writer.                                 *)
+(*  fp2 packed form (fp2_pck / fp2_upk / fp2_read_bin, len = fb + 1):        *)
+(*   C07-fp2-compress-montgomery-parity   sign bit = parity of a1*R mod p    *)
+(*   C07-fp2-read-bin-sign-byte           sign byte other than 0/1 accepted  *)
+(*   C07-fp2-read-bin-upk-failure-ignored a0 without a1: no error, object    *)
+(*                                        left as (a0, raw bit)              *)
+(*   C07-fp2-upk-assumes-qnr-minus-one    a1^2 = 1 - a0^2 used when i^2 # -1 *)
+(*   C07-fp2-read-bin-zero-sign           a1 = 0 with sign byte 1 accepted   *)
 (***************************************************************************)
 UsesSign(e) == \/ e.op \in {"ep_pck", "ep_upk"}
                \/ (e.op = "ep_write_bin" /\ e.pack # 0)
@@ -204,11 +311,36 @@ TwoTorsionCase(e, sg) ==
        IN  /\ BLt(x, c.p) /\ Rhs(x, c) = <<>> /\ e.in[1] - 2 # SignBit(<<>>, c.p, sg)
            /\ Clean(e) /\ IsPoint(e, e.R, Pt(x, <<>>))
 
-CodecKnownKey(e) ==
-    IF ~IsEpOp(e.op) \/ Has(e, "crash") THEN ""
-    ELSE IF TwoTorsionCase(e, SgOf(e)) THEN "C07-ep-read-bin-two-torsion-sign"
+(* fp2 packed form: the cheapest variant of the reader that explains the event; every deviation *)
+(* it uses is a finding of its own, ALL of them must be enabled                                   *)
+Fp2Variants(e) ==
+    {[sg |-> g, anybyte |-> ab, nofail |-> nf, qm1 |-> qm, zsign |-> zs] :
+        g \in ({SgParity} \cup (IF e.mont = 1 THEN {SgMont(BMod(FR(e), FPrime(e)))} ELSE {})),
+        ab \in BOOLEAN, nf \in BOOLEAN, qm \in (IF e.qnr = 0 - 1 THEN {FALSE} ELSE BOOLEAN), zs \in BOOLEAN}
+B2N(b) == IF b THEN 1 ELSE 0
+VCost(v) == B2N(v.sg.kind = "mont") + B2N(v.anybyte) + B2N(v.nofail) + B2N(v.qm1) + B2N(v.zsign)
+VKeys(v) == (IF v.sg.kind = "mont" THEN {"C07-fp2-compress-montgomery-parity"} ELSE {})
+            \cup (IF v.anybyte THEN {"C07-fp2-read-bin-sign-byte"} ELSE {})
+            \cup (IF v.nofail THEN {"C07-fp2-read-bin-upk-failure-ignored"} ELSE {})
+            \cup (IF v.qm1 THEN {"C07-fp2-upk-assumes-qnr-minus-one"} ELSE {})
+            \cup (IF v.zsign THEN {"C07-fp2-read-bin-zero-sign"} ELSE {})
+Fp2KnownKeys(e) ==
+    LET Vs == {v \in Fp2Variants(e) : Fp2CodecV(e, v)} IN
+    IF Vs = {} THEN {}
+    ELSE VKeys(CHOOSE v \in Vs : \A u \in Vs : VCost(v) <= VCost(u))
+
+(* the set of known-finding keys that together explain a rejected event ({} = none) *)
+CodecKnownKeys(e) ==
+    IF Has(e, "crash") THEN {}
+    ELSE IF e.op \in {"fp2_read_bin", "fp2_write_bin"} THEN Fp2KnownKeys(e)
+    ELSE IF IsEp2Op(e.op) THEN
+        (IF e.op # "ep2_size_bin" /\ Ep2CodecSk(e, "y1only") THEN {"C07-ep2-pck-sign-y1-zero"} ELSE {})
+    ELSE IF ~IsEpOp(e.op) THEN {}
+    ELSE IF TwoTorsionCase(e, SgOf(e)) THEN {"C07-ep-read-bin-two-torsion-sign"}
     ELSE IF UsesSign(e) /\ e.mont = 1 /\ e.pairf = 0 THEN
         LET sgm == SgMont(BMod(FR(e), FPrime(e))) IN
-        IF EpCodecSg(e, sgm) THEN "C07-ep-compress-montgomery-parity" ELSE ""
-    ELSE ""
+        IF EpCodecSg(e, sgm) THEN {"C07-ep-compress-montgomery-parity"} ELSE {}
+    ELSE {}
+(* a single representative ("" = none) *)
+CodecKnownKey(e) == LET ks == CodecKnownKeys(e) IN IF ks = {} THEN "" ELSE CHOOSE k \in ks : TRUE
 =============================================================================
